@@ -558,7 +558,7 @@ class Engine:
     name = "vlan"
     spec = "vlan"
     property_id = "C11"
-    runs = {"quick": 12000, "thorough": 3000000}
+    runs = {"quick": 5000, "thorough": 3000000}
     wall = {"quick": 300, "thorough": 900}
     selftest_n = {"quick": 24, "thorough": 96}
     chunk = 50
